@@ -253,4 +253,17 @@ PROPS = {
             {"name": "c18.directed", "pkg": ROUTING, "test": "TestVerifC18Directed", "shards_t": 4, "shards_q": 4, "crash_is_violation": True},
         ],
     },
+    "C19": {
+        "level": "exploration",
+        "technique": "rapid property tests: range/monotonicity invariants over long update sequences with extreme constants; forwarding predicate on observed values via the node simulator; aliasing probe and concurrent stress for the crash clause",
+        "level_text": "Up to 5000-step sequences of encounters, ageing ticks and received vectors with constants and values at 0, 1, denormals and 1-2^-53 are run on the real update functions with invariants after every step; the strict-inequality forwarding rule is checked on a real Core for every ordering incl. ties and unknown peers; a kept metadata bundle must not change after hand-over (deterministic stand-in for the serialisation race) and a multi-goroutine stress must not kill the process.",
+        "level_note": "the crash clause is schedule-dependent: the aliasing probe makes the shared-map defect deterministic, the stress run is best effort (3 s / 20 s)",
+        "assumptions": ["configuration constants and received predictabilities in [0,1] (premise of the statement)"],
+        "units": [
+            {"name": "c19.math", "pkg": ROUTING, "test": "TestVerifC19Math", "shards_t": 16},
+            {"name": "c19.forwarding", "pkg": ROUTING, "test": "TestVerifC19Forwarding", "shards_t": 16, "shards_q": 4, "crash_is_violation": True},
+            {"name": "c19.aliasing", "pkg": ROUTING, "test": "TestVerifC19Aliasing", "shards_t": 4, "crash_is_violation": True},
+            {"name": "c19.stress", "pkg": ROUTING, "test": "TestVerifC19Stress", "crash_is_violation": True},
+        ],
+    },
 }
